@@ -406,6 +406,14 @@ class Evaluator:
                         any(ast.unparse(d) == 'property' for d in m.node.decorator_list):
                     sub = Evaluator({m.node.args.args[0].arg: base}, self.hook, self.name_hook)
                     return sub.function(m.node)
+                # a class level constant of that class (``record_class.HEADER_SIZE`` on the model of the class object)
+                var = base._repo_class.resolve_var(n.attr) if hasattr(base._repo_class, 'resolve_var') else None
+                vnode = getattr(var, 'node', None)
+                if isinstance(vnode, ast.AST) and not isinstance(vnode, (ast.FunctionDef, ast.Lambda)):
+                    sub = Evaluator({}, self.hook, self.name_hook)
+                    sub.owner = base._repo_class
+                    sub.class_scope, sub.class_scope_node = getattr(var, 'cls', None) or base._repo_class, vnode
+                    return sub.ev(vnode)
             if isinstance(base, slice) and n.attr in ('start', 'stop', 'step'):
                 return getattr(base, n.attr)
             if isinstance(base, _datetime.datetime) and n.attr in ('tzinfo', 'year', 'month', 'day', 'hour', 'minute', 'second', 'microsecond'):
